@@ -3,7 +3,9 @@
 cd "$(dirname "$0")/.."
 TIER=${1:-quick}
 mkdir -p .work
-for i in 01 02 03 04 05 06 07 08 09 10 11 12 13 14 15 16 17 18 19 20; do
+shift
+IDS=${@:-01 02 03 04 05 06 07 08 09 10 11 12 13 14 15 16 17 18 19 20}
+for i in $IDS; do
   s=$(date +%s)
   ./check C$i --tier $TIER > .work/all_C$i.log 2>&1
   rc=$?
